@@ -38,6 +38,8 @@ class Inner:
         self.inp = b._input_name(self.fn)
         self.benv = {"__fn": self.fn, "__input": self.inp, "__tsubst": {}, "__module": self.fn.module}
         self.env = {}
+        self.depth = 0
+        self.inlined = []
         self.events = []
         self.unknown = []
         self.ret = None
@@ -77,12 +79,25 @@ class Inner:
         return val
 
     # ------------------------------------------------------------------ statements
-    def _block(self, blk, top=False):
-        stmts = rx.stmts_of(blk)
+    def _block(self, blk, top=False, stmts=None):
+        stmts = rx.stmts_of(blk) if stmts is None else stmts
         val = V("unit")
         for i, st in enumerate(stmts):
             last = i == len(stmts) - 1
             k = st["k"]
+            if k == "expr" and not last and st["e"]["k"] == "if" and st["e"].get("else") is None and self._ends_in_return(st["e"]["then"]):
+                # `if c { ..; return X; } rest`  ≡  `if c { ..; X } else { rest }`
+                e = st["e"]
+                c = e["cond"]
+                if c["k"] == "mcall" and c["m"] == "is_empty" and not c["args"] and rx.is_var(c["recv"], self.inp):
+                    self.ev_add(e="isempty", l=e.get("l"), node=e)
+                    a = self._block(e["then"])
+                    bb = self._block(None, top=top, stmts=stmts[i + 1 :])
+                    if top:
+                        return V("unit")
+                    return V("ifempty", then=a, els=bb)
+                self.unk(e, "conditional return")
+                continue
             if k == "let":
                 init = st.get("init")
                 pat = strip_pat(st["pat"])
@@ -122,6 +137,10 @@ class Inner:
             else:
                 self.unk(st, "statement")
         return val
+
+    def _ends_in_return(self, blk):
+        st = rx.stmts_of(blk)
+        return bool(st) and st[-1]["k"] == "expr" and st[-1]["e"]["k"] == "return"
 
     def _mentions_env(self, e):
         return bool(find_all(e, lambda n: n.get("k") == "path" and len(n["segs"]) == 1 and n["segs"][0] in self.env, skip_pats=True))
@@ -177,8 +196,20 @@ class Inner:
         if k == "for":
             self._for(e)
             return V("unit")
+        if k == "return":
+            return self.ev(e["e"]) if e["e"] is not None else V("unit")
+        if k == "call" and rx.path_str(e["f"]) == "Ok" and len(e["args"]) == 1 and self.depth > 0:
+            return self.ev(e["args"][0])
+        h = self._helper_call(e)
+        if h is not None:
+            return h
         inv = self.b._invocation(e, self.benv)
         if inv is not None and not (inv["t"] == "map" and inv.get("result_map")):
+            fo = self._fold_of_defaults(inv)
+            if fo is not None:
+                got = self._fold_as_traversal(inv, fo[0], fo[1], e)
+                if got is not None:
+                    return got
             i = self.ev_add(e="parse", ir=inv, l=e.get("l"))
             return V("parsed", ir=inv, ev=i)
         if k == "block":
@@ -186,7 +217,7 @@ class Inner:
         if k == "if":
             c = e["cond"]
             if c["k"] == "mcall" and c["m"] == "is_empty" and not c["args"] and rx.is_var(c["recv"], self.inp):
-                self.ev_add(e="isempty", l=e.get("l"))
+                self.ev_add(e="isempty", l=e.get("l"), node=e)
                 a = self._block(e["then"])
                 bb = self._block(e["else"]) if e.get("else") is not None else V("unit")
                 return V("ifempty", then=a, els=bb)
@@ -205,6 +236,97 @@ class Inner:
         if k == "tuple":
             return V("tuple", elems=[self.ev(x) for x in e["elems"]])
         return self.unk(e, "expression")
+
+    def _helper_call(self, e):
+        """A call of a private free function of the same module that the inner parse function was split into: its body is
+        interpreted in place (parameters bound to the argument values, `&mut` arguments written back), unless it is a plain
+        parser function (one parser expression applied to the input), which stays a parse event."""
+        if e["k"] == "try":
+            return None
+        if not (e["k"] == "call" and e["f"]["k"] == "path"):
+            return None
+        r = self.b._resolve_fn_path(e["f"], self.benv)
+        if r is None or r[0] not in self.facts.fns:
+            return None
+        fn = self.facts.fns[r[0]]
+        if fn.impl is not None or fn.node.get("vis") == "pub" or fn.test or tuple(fn.module) != tuple(self.fn.module) or self.depth >= 4:
+            return None
+        cinp = self.b._input_name(fn)
+        takes_input = cinp is not None and any(self.b._is_input(a, self.benv) for a in e["args"])
+        if takes_input:
+            fb = self.b.fn_ir(fn.key)
+            clean = fb["t"] == "fnbody" and not fb["unknown"] and not fb["lets"] and (fb["tail"] is not None or fb["ret"] is not None)
+            if clean:
+                return None  # a parser function: handled as a parse event
+        elif cinp is not None:
+            return None  # applied to something else than the raw input (a token list): an `apply` event
+        if len(fn.params) != len(e["args"]) or not all(n_ for n_, _ in fn.params):
+            return None
+        argv = []
+        for (pn, pty), a in zip(fn.params, e["args"]):
+            argv.append(None if (takes_input and pn == cinp) else self.ev(a))
+        saved = (self.env, self.benv, self.inp, self.fn)
+        self.env = {pn: v for (pn, _), v in zip(fn.params, argv) if v is not None}
+        self.benv = {"__fn": fn, "__input": cinp if takes_input else None, "__tsubst": {}, "__module": fn.module}
+        self.inp = cinp if takes_input else None
+        self.depth += 1
+        self.inlined.append(fn.key)
+        try:
+            val = self._block(fn.body)
+            callee_env = self.env
+        finally:
+            self.env, self.benv, self.inp, self.fn = saved[0], saved[1], saved[2], saved[3]
+            self.depth -= 1
+        # write back what the callee did to `&mut` arguments that are plain variables of the caller
+        for (pn, pty), a in zip(fn.params, e["args"]):
+            if a["k"] == "ref" and a.get("mut"):
+                nm = rx.var_name(a["e"])
+                if nm is not None and nm in self.env and pn in callee_env:
+                    self.env[nm] = callee_env[pn]
+        return val
+
+    def _fold_of_defaults(self, ir):
+        """`prefix*, repeat(..).fold(T::default, |mut acc, x| { acc.update(&x); acc })`: a parser that returns the options
+        object directly.  -> (IR with the fold replaced by its repetition, fold node) or None"""
+        from .args import unwrap
+
+        n = self.g.open(ir) if ir["t"] == "ref" else ir
+        if n is None:
+            return None
+        n0 = unwrap(n)
+        if n0["t"] == "fold":
+            return unwrap(n0["p"]), n0
+        if n0["t"] == "seq":
+            kept = [i for i in n0["items"] if i["keep"]]
+            if len(kept) == 1 and unwrap(kept[0]["p"])["t"] == "fold":
+                fo = unwrap(kept[0]["p"])
+                items = [dict(i, p=unwrap(fo["p"])) if i is kept[0] else i for i in n0["items"]]
+                return dict(n0, items=items), fo
+        return None
+
+    def _fold_as_traversal(self, inv, peeled, fold, e):
+        init, step = fold["init"], fold["step"]
+        ty = ctor = None
+        if init["k"] == "path" and len(init["segs"]) >= 2 and init["segs"][-1] in ("default", "new"):
+            ty, ctor = init["segs"][-2], init["segs"][-1]
+        elif init["k"] == "closure" and not init["params"]:
+            cb = rx.closure_body(init)
+            if cb["k"] == "call" and cb["f"]["k"] == "path" and len(cb["f"]["segs"]) >= 2 and cb["f"]["segs"][-1] in ("default", "new") and not cb["args"]:
+                ty, ctor = cb["f"]["segs"][-2], cb["f"]["segs"][-1]
+        if ty is None or step["k"] != "closure" or len(step["params"]) != 2:
+            return None
+        acc, x = [(rx.pat_bindings(p_) or [None])[0] for p_ in rx.closure_params(step)]
+        stmts = rx.stmts_of(step["body"])
+        if acc is None or x is None or not stmts or stmts[-1]["k"] != "expr" or stmts[-1].get("semi") or not rx.is_var(stmts[-1]["e"], acc):
+            return None
+        effects = [st_["e"] for st_ in stmts[:-1] if st_["k"] == "expr"]
+        if len(effects) != len(stmts) - 1:
+            return None
+        i = self.ev_add(e="parse", ir=peeled, l=e.get("l"), via=inv)
+        lst = V("parsed", ir=peeled, ev=i)
+        opts = V("fresh", ty=ty, ctor=ctor, src=src(init), via_fold=True)
+        self.ev_add(e="each", over=lst, mode="effect", enum=False, adaptors=[], cases=[dict(elem=x, index=None, pat=None, guard=None, effects=effects, result=None, env={acc: opts})], spelling=".fold", l=e.get("l"))
+        return opts
 
     def _call(self, e):
         f = e["f"]
@@ -276,7 +398,7 @@ class Inner:
                 elem = strip_pat(pat["elems"][1]).get("name")
         else:
             elem = pat.get("name") if pat["k"] == "ident" else None
-        info = {"elem": elem, "index": idx}
+        info = {"elem": elem, "index": idx, "env": dict(self.env)}
         body = rx.peel(body) if body["k"] != "block" or len(body["stmts"]) != 1 else body
         # unwrap a block holding exactly one match / if-let
         inner = body
@@ -333,13 +455,15 @@ class Inner:
 
 
     # ------------------------------------------------------------------ queries used by the rules
-    def is_update_of(self, effect, upd_name, opts_val, binding):
-        """`<options>.update(&binding)` where <options> is the given options object and binding the case's payload variable."""
+    def is_update_of(self, effect, upd_name, opts_val, binding, env=None):
+        """`<options>.update(&binding)` where <options> is the given options object and binding the case's payload variable.
+        `env`: the variables as they were where the effect is written (a case's snapshot)."""
         e = rx.peel(effect)
         if not (e.get("k") == "mcall" and e["m"] == upd_name and len(e["args"]) == 1):
             return False
         r = rx.peel(e["recv"])
-        if not (r.get("k") == "path" and len(r["segs"]) == 1 and self.env.get(r["segs"][0]) is opts_val):
+        env = self.env if env is None else env
+        if not (r.get("k") == "path" and len(r["segs"]) == 1 and env.get(r["segs"][0]) is opts_val):
             return False
         return binding is not None and rx.is_var(e["args"][0], binding)
 
